@@ -9,6 +9,15 @@
 // property oracle* keeps a flat std::vector<(id,label)> per slot, updates it by the
 // documented meaning of each operation, and compares it with what the real dataset
 // contains after every op ("!oracle <tag>" is appended to the output line on failure).
+// Sharing: every state line carries `ind=xy` per slot (is the input / label container independent, i.e. do all its
+// batch pointers have use-count 1); the Lean side computes the same from its heap model (Model/DatasetShared.lean).
+// `repart splitb splitat splice rbc` call makeIndependent() first, `rrepart rsplitb rsplitat rsplice rrbc` do not (the
+// library then throws exactly when something is shared), `indep` is makeIndependent() alone, `setel cpel vset` write in
+// place through element proxies of a dataset / a view (every holder of the batch changes), `mk3` is the sized
+// constructor, `ushuf` UnlabeledData::shuffle, `vrand` randomSubset; all ops are listed in lean/Driver/C03.lean.
+// The oracle also re-reads every state through the non-const element and batch proxies, repeats every iterator jump on
+// the Data<I> / Data<label> (const and non-const) and non-const LabeledData iterators, and rebuilds every view as
+// DataView<LabeledData const>, DataView<UnlabeledData const> and DataView<Data<label> const>.
 #include <shark/Data/Dataset.h>
 #include <shark/Data/DataView.h>
 #include "common.hpp"
@@ -114,12 +123,37 @@ struct ShiftRealBatch{
 		return r;
 	}
 };
+// batch-wise functor over sparse batches: rebuilds every row of the compressed matrix
+struct ShiftSparseBatch{
+	std::size_t k;
+	CompressedRealMatrix operator()(CompressedRealMatrix const& m) const{
+		std::vector<CompressedRealVector> rows;
+		for(std::size_t i = 0; i != m.size1(); ++i) rows.push_back(Codec<CompressedRealVector>::enc(Codec<CompressedRealVector>::dec(row(m, i)) + k));
+		return createBatch<CompressedRealVector>(rows);
+	}
+};
+// element type changing transforms: I -> unsigned int (the id) -> I (the id shifted)
+template<class I> struct ToId{
+	typedef unsigned int result_type;
+	unsigned int operator()(I const& x) const{ return (unsigned int)Codec<I>::dec(x); }
+};
+template<class I> struct FromId{
+	typedef I result_type;
+	std::size_t k;
+	I operator()(unsigned int id) const{ return Codec<I>::enc(id + k); }
+};
 template<class I> struct BatchWise{   // default: no batch-wise variant, fall back to element-wise
 	template<class D> static D apply(D const& d, std::size_t k){ ShiftElem<I> f; f.k = k; return transformInputs(d, f); }
 };
 template<> struct BatchWise<RealVector>{
 	template<class D> static D apply(D const& d, std::size_t k){ ShiftRealBatch f; f.k = k; return transformInputs(d, f); }
 };
+
+#ifndef C03_NO_SPARSE
+template<> struct BatchWise<CompressedRealVector>{
+	template<class D> static D apply(D const& d, std::size_t k){ ShiftSparseBatch f; f.k = k; return transformInputs(d, f); }
+};
+#endif
 
 template<class I>
 struct Harness{
@@ -130,7 +164,7 @@ struct Harness{
 	View v[2]; bool vset[2]; Flat vsh[2];
 	std::string oracleMsg;
 
-	Harness(){ vset[0] = vset[1] = false; }
+	Harness(): indOverride(false), probeSlot(0){ vset[0] = vset[1] = false; }
 
 	void fail(std::string const& tag){ oracleMsg += " !oracle " + tag; }
 
@@ -187,33 +221,89 @@ struct Harness{
 		return f;
 	}
 
+	// SharedContainer::isIndependent() of the protected Data::m_data, reached through a pointer to member formed in a
+	// derived class (no exception involved; the public probe would be splitBatch(0, 0), which checks independence first
+	// and then returns without touching anything -- it is used once per op as a cross-check, exceptions are slow under ASan)
+	template<class T> struct Peek: public Data<T>{
+		static bool independent(Data<T> const& c){ return (c.*(&Peek::m_data)).isIndependent(); }
+	};
+	template<class T> static bool independent(Data<T> const& c){ return Peek<T>::independent(c); }
+	template<class C> static bool independentByProbe(C& c){
+		if(c.numberOfBatches() == 0) return true;
+		try{ c.splitBatch(0, 0); }catch(shark::Exception const&){ return false; }
+		return true;
+	}
+	static bool hasEmptyBatch(DS const& s){
+		for(std::size_t x: s.inputs().getPartitioning()) if(x == 0) return true;
+		for(std::size_t x: s.labels().getPartitioning()) if(x == 0) return true;
+		return false;
+	}
+	bool indOverride; std::string indFlags[4];     // the weighted harness probes its own objects
+	std::size_t probeSlot;
+	// the non-const flavours of the access paths (element_reference / batch_reference proxies)
+	static Flat viaMutable(DS& s){
+		Flat f;
+		for(auto it = s.elements().begin(); it != s.elements().end(); ++it)
+			f.push_back(Elem(Codec<I>::dec((*it).input), (*it).label));
+		return f;
+	}
+	static Flat viaMutableBatches(DS& s){
+		Flat f;
+		for(auto&& batch: s.batches()){
+			for(std::size_t i = 0; i != batchSize(batch); ++i){
+				auto e = getBatchElement(batch, i);
+				f.push_back(Elem(Codec<I>::dec(e.input), e.label));
+			}
+		}
+		return f;
+	}
+
 	std::string showDS(std::size_t k){
 		DS const& s = d[k];
+		if(s.inputs().getPartitioning() != s.labels().getPartitioning()){
+			// inputs and labels no longer batched alike: reading (input, label) batches would run out of bounds
+			fail("input-label-partition-differs slot=" + std::to_string(k));
+			std::ostringstream os;
+			os << "D" << k << "{ish=" << showShape(s.inputShape()) << " lsh=" << showShape(s.labelShape())
+			   << " part=" << showNats(s.inputs().getPartitioning()) << " lpart=" << showNats(s.labels().getPartitioning())
+			   << " n=" << s.numberOfElements() << " el=[] paths=na ind=--}";
+			return os.str();
+		}
 		Flat f = viaBatches(s);
 		std::vector<std::string> bad;
-		if(viaElements(s) != f) bad.push_back("elements");
-		if(viaIndex(s) != f) bad.push_back("element(i)");
-		if(viaReverse(s) != f) bad.push_back("reverse");
-		if(viaBatchRange(s) != f) bad.push_back("batches()");
 		std::string paths = "ok";
+		if(hasEmptyBatch(s)) paths = "na";      // the element iterator is not defined on empty batches
+		else{
+			if(viaElements(s) != f) bad.push_back("elements");
+			if(viaIndex(s) != f) bad.push_back("element(i)");
+			if(viaReverse(s) != f) bad.push_back("reverse");
+			if(viaBatchRange(s) != f) bad.push_back("batches()");
+			if(viaMutable(d[k]) != f || viaMutableBatches(d[k]) != f) fail("non-const-access-paths slot=" + std::to_string(k));
+		}
 		if(!bad.empty()){
 			paths = "BAD:";
 			for(std::size_t i = 0; i != bad.size(); ++i) paths += (i ? "," : "") + bad[i];
 			fail("access-paths-disagree slot=" + std::to_string(k));
+		}
+		std::string ind = indOverride ? indFlags[k]
+			: std::string(independent(d[k].inputs()) ? "1" : "0") + (independent(d[k].labels()) ? "1" : "0");
+		if(!indOverride && k == probeSlot % 4){     // the public route must agree (one slot per line, round robin)
+			if(independentByProbe(d[k].inputs()) != independent(d[k].inputs()) || independentByProbe(d[k].labels()) != independent(d[k].labels()))
+				fail("isIndependent-vs-splitBatch-probe slot=" + std::to_string(k));
 		}
 		std::vector<std::size_t> part = s.inputs().getPartitioning(), lpart = s.labels().getPartitioning();
 		// ---- oracle
 		std::size_t sum = 0; for(std::size_t x: part) sum += x;
 		if(sum != s.numberOfElements() || f.size() != sum) fail("batch-sizes-do-not-sum slot=" + std::to_string(k));
 		if(part != lpart) fail("input-label-partition-differs slot=" + std::to_string(k));
-		else if(viaSeparate(s) != f) fail("inputs()/labels()-pairing slot=" + std::to_string(k));
+		else if(paths != "na" && viaSeparate(s) != f) fail("inputs()/labels()-pairing slot=" + std::to_string(k));
 		if(part != s.getPartitioning()) fail("getPartitioning slot=" + std::to_string(k));
 		for(Elem const& e: f) if(e.first == BAD){ fail("element-corrupted slot=" + std::to_string(k)); break; }
 		if(f != sh[k]) fail("flat-contents slot=" + std::to_string(k) + " expected=" + showEls(sh[k]));
 		std::ostringstream os;
 		os << "D" << k << "{ish=" << showShape(s.inputShape()) << " lsh=" << showShape(s.labelShape())
 		   << " part=" << showNats(part) << " lpart=" << showNats(lpart) << " n=" << s.numberOfElements()
-		   << " el=" << showEls(f) << " paths=" << paths << "}";
+		   << " el=" << showEls(f) << " paths=" << paths << " ind=" << ind << "}";
 		return os.str();
 	}
 	std::string showView(std::size_t k){
@@ -231,6 +321,7 @@ struct Harness{
 	}
 	std::string showState(){
 		std::string s;
+		++probeSlot;
 		for(std::size_t k = 0; k != 4; ++k) s += (k ? " " : "") + showDS(k);
 		for(std::size_t k = 0; k != 2; ++k) s += " " + showView(k);
 		return s;
@@ -256,37 +347,48 @@ struct Harness{
 		auto nb = [&](std::size_t s){ return d[s].numberOfBatches(); };
 		auto ne = [&](std::size_t s){ return d[s].numberOfElements(); };
 		auto allBelow = [&](std::size_t from, std::size_t bound){ for(std::size_t i = from; i < a.size(); ++i) if(a[i] >= bound) return false; return true; };
-		if(op == "new") return a.size() >= 4 && slot(0);
+		auto full = [&](std::size_t s){ return !hasEmptyBatch(d[s]); };
+		if(op == "new") return a.size() >= 3 && slot(0);
+		if(op == "reset") return a.empty();
+		if(op == "mk3") return a.size() == 5 && slot(0);
+		if(op == "ushuf") return a.size() == 3 && slot(0) && slot(1) && full(a[0]) && ne(a[0]) >= 1;
+		if(op == "indep") return a.size() == 1 && slot(0);
+		if(op == "swap") return a.size() == 2 && slot(0) && slot(1);
+		if(op == "setel") return a.size() == 4 && slot(0) && full(a[0]) && a[1] < ne(a[0]);
+		if(op == "cpel") return a.size() == 3 && slot(0) && full(a[0]) && a[1] < ne(a[0]) && a[2] < ne(a[0]);
+		if(op == "vset") return a.size() == 4 && vslot(0) && vset[a[0]] && a[1] < v[a[0]].size();
+		if(op == "vrand") return a.size() == 4 && vslot(0) && vslot(1) && vset[a[0]] && v[a[0]].size() >= 1 && a[2] <= v[a[0]].size();
+		if(op[0] == 'r' && (op == "rrepart" || op == "rsplitb" || op == "rsplitat" || op == "rsplice" || op == "rrbc")) return valid(op.substr(1), a);
 		if(op == "repart"){
-			if(!slot(0)) return false;
+			if(!slot(0) || !full(a[0])) return false;
 			std::size_t sum = 0; for(std::size_t i = 1; i < a.size(); ++i){ if(a[i] == 0) return false; sum += a[i]; }
 			return sum == ne(a[0]);
 		}
 		if(op == "splitb") return a.size() == 3 && slot(0) && a[1] < nb(a[0]) && a[2] <= d[a[0]].getPartitioning()[a[1]];
-		if(op == "splitat") return a.size() == 3 && slot(0) && slot(1) && a[0] != a[1] && nb(a[0]) >= 1 && a[2] <= ne(a[0]);
+		if(op == "splitat") return a.size() == 3 && slot(0) && slot(1) && a[0] != a[1] && nb(a[0]) >= 1 && full(a[0]) && a[2] <= ne(a[0]);
 		if(op == "splice") return a.size() == 3 && slot(0) && slot(1) && a[0] != a[1] && a[2] <= nb(a[0]);
 		if(op == "append") return a.size() == 2 && slot(0) && slot(1) && a[0] != a[1];
 		if(op == "pushb") return a.size() == 3 && slot(0) && slot(1) && a[0] != a[1] && a[2] < nb(a[1]);
 		if(op == "subset") return a.size() >= 2 && slot(0) && slot(1) && allBelow(2, nb(a[0]));
 		if(op == "subc") return a.size() >= 3 && slot(0) && slot(1) && slot(2) && a[1] != a[2] && allBelow(3, nb(a[0]));
 		if(op == "reorder"){
-			if(!slot(0) || a.size() - 1 < ne(a[0])) return false;
+			if(!slot(0) || !full(a[0]) || a.size() - 1 < ne(a[0])) return false;
 			for(std::size_t i = 0; i != ne(a[0]); ++i) if(a[1 + i] >= ne(a[0])) return false;
 			return true;
 		}
-		if(op == "shuffle") return a.size() == 2 && slot(0) && ne(a[0]) >= 1;   // shark::shuffle on an empty range is undefined (weighted datasets)
-		if(op == "rbc") return a.size() == 2 && slot(0) && a[1] > 0 && ne(a[0]) >= 1;
-		if(op == "bin") return a.size() == 4 && slot(0) && slot(1);
-		if(op == "ovr") return a.size() == 3 && slot(0) && slot(1);
-		if(op == "xform") return a.size() == 4 && slot(0) && slot(1) && ne(a[0]) >= 1;
-		if(op == "xlab") return a.size() == 3 && slot(0) && slot(1);
+		if(op == "shuffle") return a.size() == 2 && slot(0) && full(a[0]) && ne(a[0]) >= 1;   // shark::shuffle on an empty range is undefined (weighted datasets)
+		if(op == "rbc") return a.size() == 2 && slot(0) && full(a[0]) && a[1] > 0 && ne(a[0]) >= 1;
+		if(op == "bin") return a.size() == 4 && slot(0) && slot(1) && full(a[0]);
+		if(op == "ovr") return a.size() == 3 && slot(0) && slot(1) && full(a[0]);
+		if(op == "xform") return a.size() == 4 && slot(0) && slot(1) && full(a[0]) && (ne(a[0]) >= 1 || nb(a[0]) == 0);   // nb == 0: the empty dataset
+		if(op == "xlab") return a.size() == 3 && slot(0) && slot(1) && full(a[0]);
 		if(op == "copy") return a.size() == 2 && slot(0) && slot(1);
 		if(op == "iter"){
-			if(a.size() != 3 || !slot(0) || a[1] > ne(a[0])) return false;
+			if(a.size() != 3 || !slot(0) || !full(a[0]) || a[1] > ne(a[0])) return false;
 			std::ptrdiff_t q = (std::ptrdiff_t)a[1] + (std::ptrdiff_t)a[2] - 1000;
 			return q >= 0 && q <= (std::ptrdiff_t)ne(a[0]);
 		}
-		if(op == "view") return a.size() == 2 && vslot(0) && slot(1);
+		if(op == "view") return a.size() == 2 && vslot(0) && slot(1) && full(a[1]);
 		if(op == "vsub") return a.size() >= 2 && vslot(0) && vslot(1) && vset[a[0]] && allBelow(2, v[a[0]].size());
 		if(op == "v2d") return a.size() == 3 && vslot(0) && slot(1) && vset[a[0]];
 		if(op == "vbat") return a.size() >= 3 && vslot(0) && slot(1) && vset[a[0]] && allBelow(2, v[a[0]].size());
@@ -295,7 +397,90 @@ struct Harness{
 	}
 
 	// returns extra observation text; throws shark::Exception like the library
-	std::string exec(std::string const& op, std::vector<std::size_t> const& a){
+	// after a write through an element proxy every holder of the written batch changes (documented aliasing; a dataset
+	// may even hold the written batch twice).  The oracle knows the written value: every position that changed
+	// anywhere must now hold exactly that value, everything else must be untouched; who changes is decided by the model.
+	// inputs and labels are shared separately (transformInputs shares the labels only): per component, a position either
+	// keeps its value or takes the written one
+	static bool okAfterWrite(Elem const& before, Elem const& after, Elem const& val){
+		return (after.first == before.first || after.first == val.first) && (after.second == before.second || after.second == val.second);
+	}
+	void resyncWith(Elem val){
+		for(std::size_t k = 0; k != 4; ++k){
+			Flat now = viaBatches(d[k]);
+			if(now.size() != sh[k].size()) fail("in-place-write-changed-count slot=" + std::to_string(k));
+			else for(std::size_t p = 0; p != now.size(); ++p)
+				if(!okAfterWrite(sh[k][p], now[p], val)){ fail("in-place-write-changed-unrelated-position slot=" + std::to_string(k)); break; }
+			sh[k] = now;
+		}
+		for(std::size_t k = 0; k != 2; ++k) if(vset[k]){
+			Flat f; View const& w = v[k];
+			for(std::size_t i = 0; i != w.size(); ++i) f.push_back(Elem(Codec<I>::dec(w[i].input), w[i].label));
+			if(f.size() != vsh[k].size()) fail("in-place-write-changed-count view=" + std::to_string(k));
+			else for(std::size_t p = 0; p != f.size(); ++p)
+				if(!okAfterWrite(vsh[k][p], f[p], val)){ fail("in-place-write-changed-unrelated-position view=" + std::to_string(k)); break; }
+			vsh[k] = f;
+		}
+	}
+	std::string exec(std::string const& op0, std::vector<std::size_t> const& a){
+		// rrepart / rsplitb / rsplitat / rsplice / rrbc: the operation without makeIndependent() before it
+		bool raw = op0 == "rrepart" || op0 == "rsplitb" || op0 == "rsplitat" || op0 == "rsplice" || op0 == "rrbc";
+		std::string op = raw ? op0.substr(1) : op0;
+		typedef typename DS::element_type Pair;
+		if(op == "reset"){
+			for(std::size_t k = 0; k != 4; ++k){ d[k] = DS(); sh[k].clear(); }
+			for(std::size_t k = 0; k != 2; ++k){ v[k] = View(); vset[k] = false; vsh[k].clear(); }
+			return "";
+		}
+		if(op == "mk3"){
+			// the element is a blueprint (vector-valued batches take its size only): fill like toDataset does
+			DS r(a[1], Pair(Codec<I>::enc(a[3]), (unsigned int)a[4]), a[2]);
+			if(r.numberOfElements() != a[1]) fail("sized-constructor-element-count");
+			if(a[1] != 0) for(auto it = r.elements().begin(); it != r.elements().end(); ++it) *it = Pair(Codec<I>::enc(a[3]), (unsigned int)a[4]);
+			d[a[0]] = r;
+			sh[a[0]] = Flat(a[1], Elem(a[3], (unsigned int)a[4]));
+			return "";
+		}
+		if(op == "indep"){ d[a[0]].makeIndependent(); return ""; }
+		if(op == "swap"){ swap(d[a[0]], d[a[1]]); std::swap(sh[a[0]], sh[a[1]]); return ""; }
+		if(op == "setel"){
+			Elem val(a[2], (unsigned int)a[3]);
+			d[a[0]].element(a[1]) = Pair(Codec<I>::enc(a[2]), (unsigned int)a[3]);
+			resyncWith(val);
+			if(sh[a[0]][a[1]] != val) fail("in-place-write-lost");
+			return "";
+		}
+		if(op == "cpel"){
+			Elem val = sh[a[0]][a[2]];
+			d[a[0]].element(a[1]) = d[a[0]].element(a[2]);        // proxy = proxy of the same type
+			resyncWith(val);
+			if(sh[a[0]][a[1]] != val) fail("in-place-write-lost");
+			return "";
+		}
+		if(op == "vset"){
+			Elem val(a[2], (unsigned int)a[3]);
+			v[a[0]][a[1]] = Pair(Codec<I>::enc(a[2]), (unsigned int)a[3]);
+			resyncWith(val);
+			if(vsh[a[0]][a[1]] != val) fail("in-place-write-lost");
+			return "";
+		}
+		if(op == "vrand"){
+			random::globalRng.seed((unsigned)a[3]);
+			View const& src = v[a[0]];
+			View r = randomSubset(src, a[2]);
+			std::vector<std::size_t> pos; std::vector<bool> used(src.size(), false);
+			for(std::size_t i = 0; i != r.size(); ++i){
+				std::size_t hit = BAD;
+				for(std::size_t q = 0; q != src.size(); ++q)
+					if(!used[q] && src.index(q) == r.index(i) && src.batch(q) == r.batch(i) && src.positionInBatch(q) == r.positionInBatch(i)){ hit = q; break; }
+				if(hit == BAD){ fail("randomSubset-element-not-from-view-or-drawn-twice"); hit = 0; } else used[hit] = true;
+				pos.push_back(hit);
+			}
+			if(r.size() != a[2]) fail("randomSubset-size");
+			Flat f = gather(vsh[a[0]], pos);
+			v[a[1]] = r; vset[a[1]] = true; vsh[a[1]] = f;
+			return "obs=" + showNats(pos);
+		}
 		if(op == "new"){
 			std::size_t s = a[0], m = a[1], base = a[2];
 			std::vector<I> in; std::vector<unsigned int> lab; Flat f;
@@ -303,20 +488,20 @@ struct Harness{
 				in.push_back(Codec<I>::enc(base + i - 3)); lab.push_back((unsigned int)a[i]);
 				f.push_back(Elem(base + i - 3, (unsigned int)a[i]));
 			}
-			d[s] = createLabeledDataFromRange(in, lab, m);
+			d[s] = createLabeledDataFromRange(in, lab, m);     // a.size() == 3: the empty range
 			sh[s] = f;
 			return "";
 		}
 		if(op == "repart"){
 			std::vector<std::size_t> sizes(a.begin() + 1, a.end());
-			d[a[0]].makeIndependent();
+			if(!raw) d[a[0]].makeIndependent();
 			d[a[0]].repartition(sizes);
 			if(d[a[0]].getPartitioning() != sizes) fail("repartition-sizes");
 			return "";
 		}
-		if(op == "splitb"){ d[a[0]].makeIndependent(); d[a[0]].splitBatch(a[1], a[2]); return ""; }
+		if(op == "splitb"){ if(!raw) d[a[0]].makeIndependent(); d[a[0]].splitBatch(a[1], a[2]); return ""; }
 		if(op == "splitat"){
-			d[a[0]].makeIndependent();
+			if(!raw) d[a[0]].makeIndependent();
 			d[a[1]] = splitAtElement(d[a[0]], a[2]);
 			sh[a[1]] = Flat(sh[a[0]].begin() + a[2], sh[a[0]].end());
 			sh[a[0]].resize(a[2]);
@@ -326,7 +511,7 @@ struct Harness{
 		if(op == "splice"){
 			std::vector<std::size_t> part = d[a[0]].getPartitioning();
 			std::size_t k = 0; for(std::size_t i = 0; i != a[2]; ++i) k += part[i];
-			d[a[0]].makeIndependent();
+			if(!raw) d[a[0]].makeIndependent();
 			d[a[1]] = d[a[0]].splice(a[2]);
 			sh[a[1]] = Flat(sh[a[0]].begin() + k, sh[a[0]].end());
 			sh[a[0]].resize(k);
@@ -394,8 +579,31 @@ struct Harness{
 			sh[a[0]] = after;
 			return "obs=" + showNats(p);
 		}
+		if(op == "ushuf"){
+			random::globalRng.seed((unsigned)a[2]);
+			UnlabeledData<I> u = d[a[0]].inputs();
+			Flat before = sh[a[0]];
+			u.shuffle();
+			if(u.getPartitioning() != d[a[0]].getPartitioning()) fail("shuffle-changed-partitioning");
+			if(u.shape() != d[a[0]].inputShape()) fail("shuffle-changed-shape");
+			std::vector<std::size_t> ids;
+			for(auto it = u.elements().begin(); it != u.elements().end(); ++it) ids.push_back(Codec<I>::dec(*it));
+			std::vector<std::size_t> p; std::vector<bool> used(before.size(), false);
+			for(std::size_t j = 0; j != ids.size(); ++j){
+				std::size_t hit = BAD;
+				for(std::size_t i = 0; i != before.size(); ++i) if(!used[i] && before[i].first == ids[j]){ hit = i; break; }
+				if(hit == BAD){ fail("shuffle-lost-or-invented-element"); hit = 0; } else used[hit] = true;
+				p.push_back(hit);
+			}
+			if(ids.size() != before.size()) fail("shuffle-changed-count");
+			Flat f;
+			for(std::size_t j = 0; j != ids.size() && j != before.size(); ++j) f.push_back(Elem(before[p[j]].first, before[j].second));
+			DS r(u, d[a[0]].labels());
+			d[a[1]] = r; sh[a[1]] = f;
+			return "obs=" + showNats(p);
+		}
 		if(op == "rbc"){
-			d[a[0]].makeIndependent();
+			if(!raw) d[a[0]].makeIndependent();
 			repartitionByClass(d[a[0]], a[1]);
 			std::stable_sort(sh[a[0]].begin(), sh[a[0]].end(), [](Elem const& x, Elem const& y){ return x.second < y.second; });
 			// every batch holds one class only, no batch above the maximum size
@@ -429,6 +637,14 @@ struct Harness{
 		if(op == "xform"){
 			DS r;
 			if(a[3] == 1) r = BatchWise<I>::apply(d[a[0]], a[2]);
+			else if(a[3] == 2){
+				// through another element type and back: Data<I> -> Data<unsigned int> -> Data<I>
+				ToId<I> g; FromId<I> f; f.k = a[2];
+				Data<unsigned int> ids = transform(d[a[0]].inputs(), g);
+				if(ids.getPartitioning() != d[a[0]].getPartitioning()) fail("transform-changed-partitioning");
+				if(ids.shape() != Shape()) fail("transform-scalar-shape");
+				r = DS(transform(ids, f), d[a[0]].labels());
+			}
 			else { ShiftElem<I> f; f.k = a[2]; r = transformInputs(d[a[0]], f); }
 			Flat f = sh[a[0]]; for(Elem& e: f) e.first += a[2];
 			d[a[1]] = r; sh[a[1]] = f;
@@ -450,6 +666,7 @@ struct Harness{
 			std::size_t pos = it.index();
 			if((std::ptrdiff_t)pos != (std::ptrdiff_t)a[1] + n) fail("iterator-index");
 			if(it - s.elements().begin() != (std::ptrdiff_t)pos) fail("iterator-distance");
+			iterFlavours(a[0], a[1], n);
 			std::ostringstream os; os << "idx=" << pos << " val=";
 			if(pos < s.numberOfElements()){
 				Elem e(Codec<I>::dec((*it).input), (*it).label);
@@ -458,7 +675,7 @@ struct Harness{
 			} else os << "end";
 			return os.str();
 		}
-		if(op == "view"){ v[a[0]] = View(d[a[1]]); vset[a[0]] = true; vsh[a[0]] = sh[a[1]]; return ""; }
+		if(op == "view"){ v[a[0]] = View(d[a[1]]); vset[a[0]] = true; vsh[a[0]] = sh[a[1]]; viewFlavours(a[1]); return ""; }
 		if(op == "vsub"){
 			std::vector<std::size_t> idx(a.begin() + 2, a.end());
 			View w = subset(v[a[0]], idx); Flat f = gather(vsh[a[0]], idx);
@@ -483,6 +700,75 @@ struct Harness{
 			return "obs0=" + showNats(r);
 		}
 		return "bad-op";
+	}
+	// the same jump on every flavour of the element iterator: Data<I> / Data<unsigned> (const and non-const),
+	// LabeledData non-const; += / -= / + / [] / stepping with ++ and -- must all land on the same element
+	template<class It> static bool jumps(It begin, std::size_t p, std::ptrdiff_t n, std::size_t total){
+		It it = begin + p; it += n;
+		std::size_t q = (std::size_t)((std::ptrdiff_t)p + n);
+		if(it.index() != q || it - begin != (std::ptrdiff_t)q) return false;
+		It jt = begin + p; jt -= -n;
+		if(jt.index() != q || !(jt == it)) return false;
+		It kt = begin + p;
+		for(std::ptrdiff_t s = 0; s < n; ++s) ++kt;
+		for(std::ptrdiff_t s = 0; s > n; --s) --kt;
+		if(kt.index() != q) return false;
+		if(q < total){
+			if(!(kt.getInnerIterator() == it.getInnerIterator())) return false;    // same (batch, offset)
+			if(!(jt.getInnerIterator() == it.getInnerIterator())) return false;
+		}
+		It back = it; back -= n;
+		if(back.index() != p) return false;
+		if(p < total && !(back.getInnerIterator() == (begin + p).getInnerIterator())) return false;
+		return true;
+	}
+	void iterFlavours(std::size_t slot, std::size_t p, std::ptrdiff_t n){
+		DS& m = d[slot]; DS const& c = d[slot];
+		std::size_t total = c.numberOfElements();
+		if(!jumps(c.inputs().elements().begin(), p, n, total)) fail("iterator-flavour Data<I>-const");
+		if(!jumps(m.inputs().elements().begin(), p, n, total)) fail("iterator-flavour Data<I>");
+		if(!jumps(c.labels().elements().begin(), p, n, total)) fail("iterator-flavour Data<label>-const");
+		if(!jumps(m.labels().elements().begin(), p, n, total)) fail("iterator-flavour Data<label>");
+		std::size_t q = (std::size_t)((std::ptrdiff_t)p + n);
+		auto it = m.elements().begin() + p; it += n;
+		if(it.index() != q) fail("iterator-flavour LabeledData-non-const");
+		if(q < total){
+			Elem e(Codec<I>::dec((*it).input), (*it).label);
+			if(e != sh[slot][q]) fail("iterator-flavour LabeledData-non-const-deref");
+			Elem e2(Codec<I>::dec(*(c.inputs().elements().begin() + q)), *(c.labels().elements().begin() + q));
+			if(e2 != sh[slot][q]) fail("iterator-flavour Data-deref");
+		}
+	}
+	// the other flavours of DataView over the same data (oracle only): a view over a const LabeledData, over the
+	// UnlabeledData of the inputs and over the Data of the labels; index(), iterators, subset and toDataset of them
+	void viewFlavours(std::size_t slot){
+		DS const& c = d[slot];
+		Flat const& f = sh[slot];
+		DataView<DS const> cv(c);
+		DataView<UnlabeledData<I> const> uv(c.inputs());
+		DataView<Data<unsigned int> const> lv(c.labels());
+		if(cv.size() != f.size() || uv.size() != f.size() || lv.size() != f.size()){ fail("view-flavour-size"); return; }
+		for(std::size_t i = 0; i != f.size(); ++i){
+			if(Elem(Codec<I>::dec(cv[i].input), cv[i].label) != f[i] || cv.index(i) != i){ fail("view-flavour const-LabeledData"); break; }
+			if(Codec<I>::dec(uv[i]) != f[i].first || uv.index(i) != i){ fail("view-flavour UnlabeledData"); break; }
+			if(lv[i] != f[i].second || lv.index(i) != i){ fail("view-flavour Data<label>"); break; }
+		}
+		std::size_t k = 0;
+		for(auto it = cv.begin(); it != cv.end(); ++it, ++k)
+			if(it.index() != k || Elem(Codec<I>::dec((*it).input), (*it).label) != f[k]){ fail("view-flavour const-iterator"); break; }
+		if(k != f.size()) fail("view-flavour const-iterator-count");
+		if(f.empty()) return;
+		// every second element, back to front, through subset and toDataset of the unlabeled / label views
+		std::vector<std::size_t> idx;
+		for(std::size_t i = f.size(); i-- > 0; ) if(i % 2 == 0) idx.push_back(i);
+		UnlabeledData<I> ub = toDataset(subset(uv, idx), 2);
+		Data<unsigned int> lb = toDataset(subset(lv, idx), 2);
+		if(ub.numberOfElements() != idx.size() || lb.numberOfElements() != idx.size() || ub.getPartitioning() != lb.getPartitioning()){ fail("view-flavour toDataset-structure"); return; }
+		for(std::size_t s: ub.getPartitioning()) if(s == 0 || s > 2) fail("view-flavour toDataset-batch-size");
+		for(std::size_t j = 0; j != idx.size(); ++j){
+			if(Codec<I>::dec(ub.element(j)) != f[idx[j]].first || lb.element(j) != f[idx[j]].second){ fail("view-flavour toDataset-elements"); break; }
+			if(subset(uv, idx).index(j) != idx[j]){ fail("view-flavour subset-index"); break; }
+		}
 	}
 	static bool pureBatches(DS const& s){
 		for(std::size_t b = 0; b != s.numberOfBatches(); ++b){
